@@ -81,9 +81,45 @@ def r_esi(ctx, view, only_types=None, key_floor=5):
         ctx.anchor("%s::next" % T, nx is not None)
         dn = delegating_inner(view, nx)
         # e2: size_hint and len agree
+        e2ok = False
         if sh is not None:
             ok, why = esi_agree(view, T, sh, ln, dn)
+            e2ok = ok
             ctx.ob("R-ESI", "%s:e2:size_hint-agrees-with-len" % T, ok, sh.loc(), why)
+        # e6: both ends see all the remaining state: every field of self that len() counts is read or written by next and by
+        # next_back (an element parked in a field one of them ignores is never yielded from that end, or yielded from both)
+        if ln is not None:
+            lt_ = count_term(view, T, sh, ln, ret_term(view, ln))
+            S = {self_field_loose(x) for x in walk(lt_) if isinstance(x, tuple) and x and x[0] == "field"} - {None}
+            for m in (nx, method(prog, dei, "next_back") if dei else None):
+                if m is None or not S:
+                    continue
+                seen_f = set()
+                for g in prog.family(m.key):
+                    for b in g.blocks:
+                        if b["cleanup"]:
+                            continue
+                        stack = [b["stmts"], b["term"]]
+                        while stack:
+                            x = stack.pop()
+                            if isinstance(x, dict):
+                                if "local" in x and "proj" in x and x["local"] == 1 and not g.is_closure:
+                                    for e in x["proj"]:
+                                        if e.get("k") == "field" and e.get("name"):
+                                            seen_f.add(e["name"])
+                                            break
+                                stack.extend(x.values())
+                            elif isinstance(x, list):
+                                stack.extend(x)
+                # a method that simply hands `self` to another method of the same iterator sees what that one sees
+                for bb, t in m.calls():
+                    ci = view.fx.call_info(m, bb)
+                    if ci.local_callee and t["args"] and strip(view.vp.operand(m, t["args"][0]))[0] == "param":
+                        seen_f |= S
+                missing = sorted(S - seen_f)
+                ctx.ob("R-ESI", "%s:e6:%s-sees-all-counted-state" % (T, m.name), not missing, m.loc(),
+                       "len() counts the fields %s; %s touches %s" % (sorted(S), m.name, sorted(seen_f)) if not missing else
+                       "len() counts the field(s) %s that %s never looks at: what is parked there is invisible from this end" % (missing, m.name))
         # e3: wiring of all overridden methods
         if dn is not None and dn[0].endswith("::next"):
             field = dn[1]
@@ -96,6 +132,8 @@ def r_esi(ctx, view, only_types=None, key_floor=5):
                     m = prog.fn(item["key"])
                     d = delegating_inner(view, m)
                     good = d is not None and d[1] == field and d[0].split("::")[-1] == item["name"] and single_call(m)
+                    if not good and item["name"] in ("size_hint", "len") and e2ok:
+                        good = True   # written through the inner exact length instead: e2 has established what it returns
                     ctx.ob("R-ESI", "%s:e3:wiring:%s" % (T, item["name"]), good, m.loc(),
                            "delegating wrapper: `%s` must forward to the same-named method of self.%s (found %s)" % (
                                item["name"], field, term_str(ret_term(view, m))))
@@ -132,31 +170,81 @@ def single_call(fn):
     return sum(1 for _ in fn.calls()) == 1 and not fn.cfg.loops
 
 
+def _noref(t):
+    if not isinstance(t, tuple) or not t:
+        return t
+    if isinstance(t[0], str) and t[0] in ("ref", "deref", "rawref") and len(t) > 1 and isinstance(t[1], tuple):
+        return _noref(t[1])
+    if isinstance(t[0], str) and t[0] == "call":
+        return ("call", t[1], tuple(_noref(a) for a in t[2]))
+    if isinstance(t[0], str) and t[0] == "param" and len(t) >= 3:
+        return ("param", None, t[2], None)   # the same parameter of two methods of one impl
+    return tuple(_noref(x) if isinstance(x, tuple) else x for x in t)
+
+
+def count_term(view, T, sh, ln, t, depth=0):
+    """normal form of an expression for the number of elements still to come: the iterator's own `len()` and
+    `size_hint().0` are unfolded to what they return, `inner.size_hint().0` of a wrapped exact iterator is `inner.len()`"""
+    t = strip(t)
+    if depth > 4:
+        return _noref(unsite(t))
+    if is_self_len_call(t, T) and ln is not None:
+        return count_term(view, T, sh, ln, ret_term(view, ln), depth + 1)
+    if t[0] == "field" and t[2] in (0, "0"):
+        b = strip(t[1])
+        if b[0] == "call" and b[1].endswith("size_hint") and b[2]:
+            a = strip(b[2][0])
+            if a[0] == "param" and a[2] == 1 and sh is not None:
+                r = strip(ret_term(view, sh))
+                if r[0] == "tuple" and len(r[1]) == 2:
+                    return count_term(view, T, sh, ln, r[1][0], depth + 1)
+                if r[0] == "call" and r[1].endswith("size_hint"):
+                    return count_term(view, T, sh, ln, ("field", r, 0, None), depth + 1)
+            if self_field(a) is not None:
+                return ("call", "len", (_noref(unsite(a)),))
+    if t[0] == "call" and t[1].split("::")[-1] == "len" and len(t[2]) == 1 and self_field(strip(t[2][0])) is not None:
+        return ("call", "len", (_noref(unsite(strip(t[2][0]))),))
+    return _noref(unsite(t))
+
+
 def esi_agree(view, T, sh, ln, dn):
-    r = ret_term(view, sh)
-    if dn is not None and dn[0].endswith("::next"):
-        # delegating wrapper: size_hint(self.f) and len(self.f)
-        d = delegating_inner(view, sh)
-        l = delegating_inner(view, ln) if ln else None
-        if d is None or not d[0].endswith("::size_hint") or d[1] != dn[1]:
+    r = strip(ret_term(view, sh))
+    deleg = dn is not None and dn[0].endswith("::next")
+    # (lower, upper) of size_hint in count-term normal form
+    if r[0] == "call" and r[1].endswith("size_hint") and r[2] and self_field(strip(r[2][0])) is not None:
+        if deleg and self_field(strip(r[2][0])) != dn[1]:
             return False, "size_hint must forward to self.%s.size_hint() (found %s)" % (dn[1], term_str(r))
-        if ln is not None and (l is None or not l[0].endswith("::len") or l[1] != dn[1]):
-            return False, "len must forward to self.%s.len()" % dn[1]
-        return True, "size_hint and len forward to the same inner field `%s` that next reads" % dn[1]
-    # self-made: (n, Some(n)) with n = self.len() or the same term as len's result
-    if r[0] != "tuple" or len(r[1]) != 2:
-        return False, "size_hint result is not a pair literal: %s" % term_str(r)
-    lo, hi = r[1]
-    if hi[0] != "adt" or not hi[1].endswith("Option") or hi[2] != "Some" or len(hi[3]) != 1:
-        return False, "upper bound is not Some(_): %s" % term_str(hi)
-    if hi[3][0] != lo:
-        return False, "lower and upper bound differ: %s vs %s" % (term_str(lo), term_str(hi[3][0]))
-    lterm = ret_term(view, ln) if ln else None
-    if is_self_len_call(lo, T):
-        return True, "size_hint = (self.len(), Some(self.len()))"
-    if lterm is not None and unsite(lo) == unsite(lterm):
-        return True, "size_hint = (n, Some(n)) with n structurally equal to len()'s result"
-    return False, "size_hint bound %s is not len() (= %s)" % (term_str(lo), term_str(lterm) if lterm else "?")
+        lo = hi = ("call", "len", (_noref(unsite(strip(r[2][0]))),))
+    elif r[0] == "tuple" and len(r[1]) == 2:
+        lo0, hi0 = r[1]
+        hi0 = strip(hi0)
+        if hi0[0] != "adt" or not hi0[1].endswith("Option") or hi0[2] != "Some" or len(hi0[3]) != 1:
+            return False, "upper bound is not Some(_): %s" % term_str(hi0)
+        lo = count_term(view, T, sh, ln, lo0)
+        hi = count_term(view, T, sh, ln, hi0[3][0])
+    else:
+        return False, "size_hint result is neither a pair literal nor the inner size_hint: %s" % term_str(r)
+    if lo != hi:
+        return False, "lower and upper bound differ: %s vs %s" % (term_str(lo), term_str(hi))
+    if ln is None:
+        return True, "size_hint = (n, Some(n)); len() is the provided one, which returns that n"
+    lt = count_term(view, T, sh, ln, ret_term(view, ln))
+    if deleg:
+        want = ("call", "len", (_noref(("field", ("param", None, 1, "self"), dn[1], None)),))
+        okf = lt[0] == "call" and lt[1] == "len" and self_field_loose(lt[2][0]) == dn[1] and lo[0] == "call" and lo[1] == "len" and self_field_loose(lo[2][0]) == dn[1]
+        if not okf:
+            return False, "size_hint / len must both be the exact length of self.%s, the field next() reads (found %s / %s)" % (dn[1], term_str(lo), term_str(lt))
+        return True, "size_hint and len are the exact length of the inner field `%s` that next reads" % dn[1]
+    if lo == lt:
+        return True, "size_hint = (n, Some(n)) with n = len() (%s)" % term_str(lt)[:60]
+    return False, "size_hint bound %s is not len() (= %s)" % (term_str(lo), term_str(lt))
+
+
+def self_field_loose(t):
+    t = strip(t)
+    if t[0] == "field" and isinstance(t[1], tuple) and strip(t[1])[0] == "param" and strip(t[1])[2] == 1:
+        return t[2]
+    return None
 
 
 def is_self_len_call(t, T):
@@ -330,7 +418,7 @@ def r_cursor(ctx, view):
             # order: front = read then advance; back = retreat then read
             ordok = ci["order_ok"]
             ctx.ob("R-CURSOR", key + ":c1:order", ordok, f.loc(),
-                   "front method must read the slot before advancing, back method must retreat before reading; and the move is on every yielding path")
+                   "the slot read must be the cursor's old value (front) / its old value - 1 (back) - whichever of read and move comes first - and the move must be on every yielding path (slot offset found: %s)" % ci.get("slot"))
             # c3: no other cursor-like field is moved
             other = [k2 for k2 in ci["moves"] if k2 != ci["cursor"]]
             ctx.ob("R-CURSOR", key + ":c3:no-foreign-move", not other, f.loc(),
@@ -376,7 +464,7 @@ def r_cursor(ctx, view):
         esi = impl_for(prog, ESI, Tdesc)
         if esi is not None:
             ln = method(prog, esi, "len")
-            lt = ret_term(view, ln)
+            lt = count_term(view, T, method(prog, impl_for(prog, IT, T), "size_hint"), ln, ret_term(view, ln))
             fields = {self_field(x) for x in walk(lt)} - {None}
             need = {c["cursor"] for c in info.values() if c["cursor"]}
             ok, why = len_is_remaining(lt, fronts["cursor"] if fronts else None, backs["cursor"] if backs else None)
@@ -389,14 +477,49 @@ def len_is_remaining(lt, front, back):
     if front and back:
         if lt[0] == "field" and lt[1][0] == "binop" and lt[1][1] in ("SubWithOverflow", "Sub"):
             a, b = lt[1][2], lt[1][3]
-            if self_field(a) == back and self_field(b) == front:
+            if self_field_loose(a) == back and self_field_loose(b) == front:
                 return True, "len = self.%s - self.%s" % (back, front)
-        if lt[0] == "binop" and lt[1] in ("Sub", "SubWithOverflow", "SubUnchecked") and self_field(lt[2]) == back and self_field(lt[3]) == front:
+        if lt[0] == "binop" and lt[1] in ("Sub", "SubWithOverflow", "SubUnchecked") and self_field_loose(lt[2]) == back and self_field_loose(lt[3]) == front:
             return True, "len = self.%s - self.%s" % (back, front)
-        if lt[0] == "call" and lt[1].endswith("saturating_sub") and self_field(lt[2][0]) == back and self_field(lt[2][1]) == front:
+        if lt[0] == "call" and lt[1].endswith("saturating_sub") and self_field_loose(lt[2][0]) == back and self_field_loose(lt[2][1]) == front:
             return True, "len = self.%s.saturating_sub(self.%s)" % (back, front)
         return False, "len() must be the distance between the two cursors"
     return True, "single cursor"
+
+
+def cursor_read(f, o, bb):
+    """the subscript operand `o` of the lookup in block bb, followed back through single-assignment temporaries:
+    -> (cursor field, offset d in {0,-1,+1}, (block, position) of the read of the field) or None.
+    `self.c`, `let k = self.c`, `let k = self.c - 1` (through the checked-arithmetic pair) are recognised."""
+    pos = 10 ** 6
+    d = 0
+    for _ in range(10):
+        if o["k"] not in ("copy", "move"):
+            return None
+        pl = o["place"]
+        pr = pl["proj"]
+        if pl["local"] == 1 and len(pr) == 2 and pr[0]["k"] == "deref" and pr[1]["k"] == "field":
+            return pr[1].get("name"), d, (bb, pos)
+        if pr and not (len(pr) == 1 and pr[0]["k"] == "field" and pr[0].get("i") == 0):
+            return None
+        ds = f.defs.get(pl["local"], [])
+        if len(ds) != 1 or ds[0][0] != "stmt" or f.locals[pl["local"]]["arg"]:
+            return None
+        st = ds[0]
+        rv = st[3]["rv"]
+        bb, pos = st[1], st[2]
+        if rv["k"] == "use":
+            o = rv["op"]
+            continue
+        if rv["k"] == "binop" and rv["op"] in ("Sub", "SubWithOverflow", "SubUnchecked", "Add", "AddWithOverflow", "AddUnchecked") and rv["b"]["k"] == "const":
+            from .core import const_int as _ci
+            if _ci(("const", rv["b"]["s"])) != 1 or d != 0:
+                return None
+            d = -1 if rv["op"].startswith("Sub") else 1
+            o = rv["a"]
+            continue
+        return None
+    return None
 
 
 def cursor_info(view, f):
@@ -406,6 +529,7 @@ def cursor_info(view, f):
     res = {"cursor": None, "subscript": ("none",), "moves": {}, "order_ok": False, "guard": None}
     # the yielding call: get_index_mut2 / get_index_mut on the map component
     ybb = None
+    rd = None
     for bb, t in f.calls():
         nm = t["func"]["name"] if "func" in t else ""
         if nm in ("get_index_mut2", "get_index_mut", "get_index", "get_index_entry") and len(t["args"]) >= 2:
@@ -415,12 +539,13 @@ def cursor_info(view, f):
                 sub = vp.operand(f, t["args"][1])
                 res["subscript"] = sub
                 # flow-insensitive VP gives phi(self.f ...) when the field is re-assigned; look at the operand place instead
-                res["cursor"] = field_of_operand(f, t["args"][1])
+                rd = cursor_read(f, t["args"][1], bb)
+                res["cursor"] = rd[0] if rd else None
     if ybb is None:
         return res
     # moves: assignments to self.<field>
     for bi, b in enumerate(f.blocks):
-        if b["cleanup"]:
+        if b["cleanup"] or bi not in f.cfg.reach:
             continue
         for si, s in enumerate(b["stmts"]):
             if s["k"] != "assign" or not s["place"]["proj"]:
@@ -433,26 +558,40 @@ def cursor_info(view, f):
             d = move_dir(val, fld)
             res["moves"].setdefault(fld, []).append({"dir": d, "bb": bi, "si": si})
     cur = res["cursor"]
-    if cur and cur in res["moves"]:
+    if cur and cur in res["moves"] and rd:
         mv = res["moves"][cur]
         cfg = f.cfg
-        if f.name == "next":
-            # read before advance: the move block is reachable from the yield block, and every path from the yield to return passes a move
-            ok = all(m["bb"] in cfg.reachable_from(ybb) or m["bb"] == ybb for m in mv)
-            esc = cfg.escape_path(ybb, {m["bb"] for m in mv if m["bb"] != ybb})
-            if any(m["bb"] == ybb for m in mv):
-                esc = None
-            res["order_ok"] = ok and esc is None
-        else:
-            # retreat before read: every path from entry to the yield passes a move block
-            blocked = {m["bb"] for m in mv}
-            if 0 in blocked or ybb in blocked:
-                res["order_ok"] = ybb not in blocked or True
+        _, off, (rbb, rpos) = rd
+
+        def before(a, b):
+            """program point a = (bb, pos) is executed before b on every path that runs both (acyclic bodies)"""
+            if a[0] == b[0]:
+                return a[1] < b[1]
+            return cfg.dominates(a[0], b[0]) and a[0] not in cfg.reachable_from(b[0])
+        rels = set()
+        for m in mv:
+            mp = (m["bb"], m["si"])
+            if before((rbb, rpos), mp):
+                rels.add("read-first")
+            elif before(mp, (rbb, rpos)):
+                rels.add("move-first")
             else:
-                p = cfg.escape_path(0, blocked, targets={ybb}) if 0 != ybb else [0]
-                res["order_ok"] = p is None
-            # and no move after the read
-            res["order_ok"] = res["order_ok"] and not any(m["bb"] in cfg.reachable_from(ybb) and m["bb"] != ybb for m in mv)
+                rels.add("unordered")
+        want_dir = 1 if f.name == "next" else -1
+        # slot relative to the cursor's old value:  read-first: off ; move-first: dir + off
+        slot = None
+        if rels == {"read-first"}:
+            slot = off
+        elif rels == {"move-first"}:
+            slot = want_dir + off
+        want_slot = 0 if f.name == "next" else -1
+        # the move is on every path that yields: no path entry -> lookup -> return that avoids every move
+        mblocks = {m["bb"] for m in mv}
+        complete = ybb in mblocks or cfg.escape_path(0, mblocks, start_after=False, targets={ybb}) is None or cfg.escape_path(ybb, mblocks) is None
+        if 0 in mblocks:
+            complete = True
+        res["order_ok"] = slot == want_slot and complete and not f.cfg.loops
+        res["slot"] = slot
     # guard: a switch on a comparison of two self fields that dominates the first state change / yield
     res["guard"] = find_guard(view, f, ybb, res)
     return res
@@ -650,7 +789,8 @@ def r_selfmade(ctx, view, fixture=False):
     a path that yields nothing moves no cursor.  Paths, moves and guards are read from the MIR of next / next_back."""
     from .rules_sift import Skel
     prog = view.prog
-    ctx.cur = view
+    if ctx is not None:
+        ctx.cur = view
     sk = Skel(view)
     res = {}
     for (T, nx, nb, ln) in selfmade_types(view):
@@ -697,7 +837,7 @@ def r_selfmade(ctx, view, fixture=False):
                 where = "%s path %s" % (m.name, "->".join("bb%d" % b for b in p))
                 yields = rk == "some" or (rk == "opt" and guarded)
                 if yields:
-                    want_fld = self_field(Y) if role == "front" else self_field(X)
+                    want_fld = (self_field(Y) if Y is not None else None) if role == "front" else self_field(X)
                     want_dir = "+1" if role == "front" else "-1"
                     if cy is None and role == "front":
                         want_fld, want_dir = self_field(X), "-1"
